@@ -27,10 +27,6 @@ def scHex (a : Sc.Scalar) : String := bytesHex (Sc.toBytes a)
 
 def scOut (a : Sc.Scalar) : Json := Json.mkObj [("status", "ok"), ("val", scHex a)]
 
-def resOut : Sc.Res → Json
-  | .ok v => scOut v
-  | x => Json.mkObj [("status", x.tag)]
-
 def outcomeOut : Outcome Sc.Scalar → Json
   | .ok v => scOut v
   | x => Json.mkObj [("status", x.tag)]
@@ -55,11 +51,11 @@ def scOp (inp : Json) : Except String Json := do
   | "mul" => pure (scOut (Sc.mul (← argSc args 0) (← argSc args 1)))
   | "pow" => pure (scOut (Sc.pow (← argSc args 0) (← argSc args 1)))
   | "neg" => pure (scOut (Sc.neg (← argSc args 0)))
-  | "inv" => pure (resOut (Sc.inv (← argSc args 0)))
+  | "inv" => pure (outcomeOut (Sc.inv (← argSc args 0)))
   | "to_bytes" => pure (scOut (← argSc args 0))
   | "to_string" => pure (Json.mkObj [("status", "ok"), ("str", Sc.toHex (← argSc args 0))])
   | "from_bytes" => pure (outcomeOut (Sc.fromBytes (← parseBytes (← argStr args 0))))
-  | "from_string" => pure (resOut (Sc.fromString (← argStr args 0)))
+  | "from_string" => pure (outcomeOut (Sc.fromString (← argStr args 0)))
   | "new_u32" =>
     match args[0]? with
     | some v => do
